@@ -342,6 +342,10 @@ class TriInterp:
                     s.target]
                 for t in targets:
                     if isinstance(t, ast.Name):
+                        if v is INT:
+                            # some integer, but this one: a copy of the
+                            # name is the same number (x <= x is decided)
+                            v = V("int")
                         p2.env[t.id] = v
                     elif isinstance(t, (ast.Tuple, ast.List)):
                         for e in t.elts:
@@ -592,6 +596,17 @@ class TriInterp:
                 op, (ast.In, ast.NotIn)):
             f = _bf(r)
             return self._split_byte(p, lambda b: _cmp(op, l.val, f(b)))
+        if l is r and l is not INT and l.kind in ("int", "oint", "obyte") and isinstance(
+                op, (ast.Lt, ast.LtE, ast.Gt, ast.GtE, ast.Eq, ast.NotEq)):
+            # the same number on both sides (a limit that defaults to the
+            # number itself)
+            return [(p, isinstance(op, (ast.LtE, ast.GtE, ast.Eq)))]
+        if _bf(l) is not None and _bf(r) is not None and isinstance(
+                op, (ast.Lt, ast.LtE, ast.Gt, ast.GtE, ast.Eq, ast.NotEq)):
+            # two functions of the one byte (the number and a limit that
+            # defaults to the number itself)
+            f, g = _bf(l), _bf(r)
+            return self._split_byte(p, lambda b: _cmp(op, f(b), g(b)))
         if isinstance(op, (ast.Is, ast.IsNot)):
             known = None
             if l.kind == "const" and r.kind == "const":
